@@ -135,3 +135,11 @@ Definition ex_trigger_plan : plan :=
     [mkChange (bs "CREATE TABLE `t` (`a` int, `b` text)") (bs "create t") [];
      mkChange (render_begin ex_trigger) (bs "create trigger") [];
      mkChange (bs "CREATE TABLE `u` (`a` int)") [] []].
+
+(** a DBMate file with options after the direction (repaired, C07-dbmate-directive-options) *)
+Definition w_dbmate_options : bytes :=
+  bs ("-- migrate:up transaction:false" ++ nl ++ "CREATE TABLE t1 (a int);" ++ nl ++ "CREATE TABLE t2 (a int);" ++ nl
+      ++ "-- migrate:down transaction:false" ++ nl ++ "DROP TABLE t1;" ++ nl).
+Lemma dbmate_options_repaired :
+  texts (read FDBMate opts_generic w_dbmate_options) = Some [bs "CREATE TABLE t1 (a int);"; bs "CREATE TABLE t2 (a int);"].
+Proof. vm_compute. reflexivity. Qed.
